@@ -234,6 +234,73 @@ theorem safe_distance (f : Form) (D : Nat) (a b : Slice T) (hfuel : ∀ n, n ≤
 
 end
 
+
+/-! ### the same composition for any routine known to complete on matching lengths (used for the float backends, whose
+register max/min are not the scalar ones: `Thm/C01Float.lean`) -/
+
+section
+variable {T : Type} {E : Env}
+
+theorem safe_three_slices {α : Type} (m : SafeMacro) (f : Form) (D : Nat) (a b result : Slice T)
+    (hp : sliceParams (safeArmOf m f) = [.a, .b, .result]) (hf : (safeArmOf m f).form = f)
+    (hfuel : ∀ n, n ≤ max D a.size → n < E.fuel) (k : Nat → Exec α)
+    (hk : ∀ d, d < E.fuel → a.size = d → b.size = d → result.size = d → SafeOutcome (k d)) :
+    SafeOutcome (runArm (safeArmOf m f) (lens3 a b result) D k) := by
+  apply runArm_safe _ (arm_mem m f)
+  intro hall
+  rw [hp] at hall
+  refine hk _ ?_ (hall .a (by simp)) (hall .b (by simp)) (hall .result (by simp))
+  apply hfuel
+  rw [hf]; cases f
+  · exact Nat.le_max_left _ _
+  · exact Nat.le_max_right _ _
+
+theorem safe_two_slices {α : Type} (m : SafeMacro) (f : Form) (D : Nat) (a result : Slice T)
+    (hp : sliceParams (safeArmOf m f) = [.a, .result]) (hf : (safeArmOf m f).form = f)
+    (hfuel : ∀ n, n ≤ max D a.size → n < E.fuel) (k : Nat → Exec α)
+    (hk : ∀ d, d < E.fuel → a.size = d → result.size = d → SafeOutcome (k d)) :
+    SafeOutcome (runArm (safeArmOf m f) (lens3 a a result) D k) := by
+  apply runArm_safe _ (arm_mem m f)
+  intro hall
+  rw [hp] at hall
+  refine hk _ ?_ (hall .a (by simp)) (hall .result (by simp))
+  apply hfuel
+  rw [hf]; cases f
+  · exact Nat.le_max_left _ _
+  · exact Nat.le_max_right _ _
+
+theorem safe_ab_slices {α : Type} (m : SafeMacro) (f : Form) (D : Nat) (a b : Slice T)
+    (hp : sliceParams (safeArmOf m f) = [.a, .b]) (hf : (safeArmOf m f).form = f)
+    (hfuel : ∀ n, n ≤ max D a.size → n < E.fuel) (k : Nat → Exec α)
+    (hk : ∀ d, d < E.fuel → a.size = d → b.size = d → SafeOutcome (k d)) :
+    SafeOutcome (runArm (safeArmOf m f) (lens3 a b a) D k) := by
+  apply runArm_safe _ (arm_mem m f)
+  intro hall
+  rw [hp] at hall
+  refine hk _ ?_ (hall .a (by simp)) (hall .b (by simp))
+  apply hfuel
+  rw [hf]; cases f
+  · exact Nat.le_max_left _ _
+  · exact Nat.le_max_right _ _
+
+theorem safe_one_slice {α : Type} (m : SafeMacro) (f : Form) (D : Nat) (a : Slice T)
+    (hp : sliceParams (safeArmOf m f) = [.a]) (hf : (safeArmOf m f).form = f)
+    (hfuel : ∀ n, n ≤ max D a.size → n < E.fuel) (k : Nat → Exec α)
+    (hk : ∀ d, d < E.fuel → a.size = d → SafeOutcome (k d)) :
+    SafeOutcome (runArm (safeArmOf m f) (lens3 a a a) D k) := by
+  apply runArm_safe _ (arm_mem m f)
+  intro hall
+  rw [hp] at hall
+  refine hk _ ?_ (hall .a (by simp))
+  apply hfuel
+  rw [hf]; cases f
+  · exact Nat.le_max_left _ _
+  · exact Nat.le_max_right _ _
+
+theorem form_of (m : SafeMacro) (f : Form) : (safeArmOf m f).form = f := by cases m <;> cases f <;> decide
+
+end
+
 /-- non-vacuity: a mismatch is a panic, a match runs the routine (xconst distance wrapper, lengths 8/8 vs `DIMS` 16 and 8) -/
 example : runArm (safeArmOf .export_safe_distance_op .xconst) (fun _ => 8) 16 (fun d => (pure d : Exec Nat)) = throw Fault.panic
     ∧ runArm (safeArmOf .export_safe_distance_op .xconst) (fun _ => 8) 8 (fun d => (pure d : Exec Nat)) = pure 8 := by
